@@ -33,6 +33,9 @@ pub struct Container {
 
 /// Parse the pack header mirrored in the last 64 bytes of the reader.
 fn parse_tail_pack_header(reader: &Reader) -> Result<PackHeader> {
+    if reader.size() < Size::new(64) {
+        return Err(ErrorKind::NotAJbk.into());
+    }
     let mut buffer_reader = [0u8; 64];
     reader
         .create_stream((reader.size() - Size::new(64)).into(), Size::new(64), false)?
@@ -54,6 +57,9 @@ pub fn open_as_container_pack(reader: Reader) -> Result<ContainerPack> {
             //Check at end
             match parse_tail_pack_header(&reader) {
                 Ok(pack_header) => {
+                    if pack_header.file_size > reader.size() {
+                        return Err(format_error!("Pack is bigger than the file containing it"));
+                    }
                     let origin = reader.size() - pack_header.file_size;
                     (pack_header, origin.into())
                 }
